@@ -40,6 +40,14 @@ def handle_names(evs, upto):
     return names
 
 
+def kind_at(tr, upto, name):
+    """the kind of the entry at `name` as last read back from the grid before event number `upto` (1-based)"""
+    for x in reversed(tr["events"][:max(0, upto - 1)]):
+        if x["obs"]["present"]:
+            return x["obs"]["dir"][name]["kind"]
+    return tr["consts"]["dir"][name]["kind"]
+
+
 def family_of(tr, l, clause):
     """Structural classification of a rejected event (not a verdict): which of the deviations described in
     notes/X-sftp_handles.md it is, decided from the clause TLC named and the shape of the history before it.
@@ -82,7 +90,9 @@ def family_of(tr, l, clause):
     for j in range(1, l):
         c, o = evs[j - 1], evs[j]
         if (o["ev"] == "Open" and o["piped"] and o["p"]["t"] == "name" and c["ev"] == "Close"
-                and handle_names(evs, j - 1).get(c["h"]) == o["p"]["n"]):
+                and handle_names(evs, j - 1).get(c["h"]) == o["p"]["n"]
+                # only a directory entry that is RELINKED by the close can be looked up stale; a mutable file is the same object
+                and kind_at(tr, j, o["p"]["n"]) not in ("mut", "mro")):
             at = {o["p"]["n"]} | {handle_names(evs, k).get(o["h"]) for k in range(j + 1, l)}
             parts = clause.split(":")
             if (o is e or e.get("h") == o["h"] or ("_ns" in parts[0] and len(parts) >= 2 and parts[1] in at)
